@@ -174,8 +174,12 @@ def main():
         if sig in seen_sig and len(violations) >= 3:
             continue
         seen_sig.add(sig)
+        if os.environ.get("VERIF_NOSHRINK") and violations:
+            continue        # matrix mode: one unshrunk replay is enough
         if len(violations) < 3:
             try:
+                if os.environ.get("VERIF_NOSHRINK"):
+                    raise RuntimeError("no shrinking in matrix mode")
                 sprog, smm = shrink(pc, prog, mm)
             except Exception:  # noqa: BLE001
                 sprog, smm = prog, mm
